@@ -96,7 +96,7 @@ def makeURLKey (r : Req) : Str := makeURLKeyOf r.scheme r.host r.path r.query r.
 
 /-- isRequestMethodUnderstood -/
 def isRequestMethodUnderstood (r : Req) : Bool :=
-  r.method = sGET && (Header.get r.header sRange).isEmpty
+  r.method = sGET && (Header.values r.header sRange).isEmpty
 
 /-- IsUnsafeMethod -/
 def isUnsafeMethod (m : Str) : Bool := !(Generated.safeMethods.map String.toList).contains m
